@@ -81,6 +81,8 @@ type escn struct {
 	MC       []mcycle
 	Conc     bool  // concurrent traffic around the reset ticks of node 0 (conc_test.go): offenders overrun a limit right before a tick while innocent peers send legal amounts in every window
 	CC       cconf
+	Late     bool  // honest peers answer LATE: well-formed, solicited responses after the requester's response timeout / cancelled context (late_test.go)
+	LC       lconf
 	Events   []eev
 }
 
@@ -138,6 +140,12 @@ func genScenario() *rapid.Generator[escn] {
 		case f >= 4 && f <= 7:
 			// concurrent traffic around reset ticks (measured share ~13 %)
 			genConc(t, &s)
+			return s
+		case f >= 17 && f <= 19 && os.Getenv("VERIF_C18_NO_LATE") == "":
+			// honest but slow responders: late, well-formed, solicited responses (late_test.go; measured share of the
+			// draw: 17: 2.8 %, 18: 3.1 %, 19: 5.7 % = ~11.6 %; the general scenarios keep 0-3 = ~39 %).
+			// VERIF_C18_NO_LATE=1 (diagnostic, to measure the cost of this flavour) falls through to the general scenarios.
+			genLate(t, &s)
 			return s
 		}
 		s.Legal = rapid.IntRange(0, 3).Draw(t, "legal") == 0
@@ -1584,6 +1592,9 @@ func runScenario(s escn) *seqResult {
 	if s.Conc {
 		return runConcScenario(s)
 	}
+	if s.Late {
+		return runLateScenario(s)
+	}
 	res := &seqResult{labels: map[string]bool{}}
 	r := &erun{s: s, start: time.Now(), res: res}
 	defer r.teardown()
@@ -1693,6 +1704,11 @@ func runScenarioRobust(s escn) *seqResult {
 		heartbeat()
 		stalls := hbStalls.Load()
 		res := runScenario(s)
+		if res.violation != "" && res.hard {
+			// positive evidence (late_test.go: a score / ban stored for the IP of a peer that only ever sent well-formed,
+			// solicited traffic within the limits): no stall and no retry can explain a stored penalty away
+			return res
+		}
 		if res.violation != "" && hbStalls.Load() != stalls {
 			// the process was not scheduled for > 250 ms at least once during this attempt: with bans that live 1-2 s
 			// a failed observation is not evidence
@@ -1743,7 +1759,11 @@ func runE2EBatch(rt *rapid.T, scns []escn) {
 			continue
 		}
 		if res.violation != "" {
-			fails = append(fails, fmt.Sprintf("scenario %d: C18 violated (end-to-end, 3 attempts): %s\nhistory:\n%s", i, res.violation, res.render()))
+			how := "3 attempts"
+			if res.hard {
+				how = "positive evidence, reported at its first occurrence"
+			}
+			fails = append(fails, fmt.Sprintf("scenario %d: C18 violated (end-to-end, %s): %s\nhistory:\n%s", i, how, res.violation, res.render()))
 		} else if res.infra != "" {
 			evid.R.Inconclusive("e2e scenario dropped (environment): %s", res.infra)
 			evid.R.Label("e2e-inconclusive", 1)
